@@ -125,6 +125,9 @@ Record facts := {
   f_default_adapter : bytes;                  (* ext_to_adapter.get(ext, <this>) *)
   f_rs_magic : bytes;                         (* RECORDSTREAM_MAGIC *)
   f_header_frame : bytes;                     (* the first bytes a RecordStreamWriter writes *)
+  f_position_preserved : bool;                (* open_stream / find_adapter_for_stream hand back a stream that continues exactly at the
+                                                 position the caller's file object was at (never sought elsewhere): the [bs] the read
+                                                 paths below talk about is the content FROM THAT POSITION on *)
   f_header_read_len : nat;                    (* RecordStreamReader.readheader: self.fp.read(<this>) *)
   f_header_test : htest;                      (* ... and the test the bytes read must pass (else IOError) *)
   f_flag_deps : list (flag * list bytes);     (* base.py import block: the modules whose import decides each HAS_* flag *)
@@ -466,4 +469,4 @@ Definition flag_deps_ok (F : facts) : bool :=
 Definition facts_ok (F : facts) : bool :=
   sniff_chain_ok F && ext_chain_ok F && cont_chain_ok F && containers_vs_codecs_ok F && adapters_ok F &&
   f_writer_passthrough F && f_path_fallback_sniffs F && f_stdin_fallback_sniffs F && f_private_codec_state F &&
-  header_ok F && flag_deps_ok F.
+  header_ok F && flag_deps_ok F && f_position_preserved F.
